@@ -1,0 +1,46 @@
+//go:build verif
+
+package resolver
+
+//@ # ---- C12: bounded work.  The big resolver functions are checked in the abstracting tier: calls without a
+//@ # contract havoc the whole heap, goroutines/channels are abstracted, and only the anchored obligations below are claimed.
+//@
+//@ # a redirected resolution keeps the request tree's ledger and does not get a fresh depth budget;
+//@ # every decrement of the depth budget is a strict decrease (no wrap-around), and resolution only continues
+//@ # with a positive budget
+//@ func noteCut
+//@   modifies heap(middleware.ResponseMeta.cut)
+//@
+//@ func (*Resolver).processDelegation
+//@   abstract
+//@   nosafety all
+//@   assert at store resolver.resolveState.work#1: value == rs.work
+//@   assert at store resolver.resolveState.depth#1: value == rs.depth
+//@   assert at store resolver.resolveState.depth#2: rs.depth > -9223372036854775808 ==> value < rs.depth
+//@   assert at call (*middleware/resolver.Resolver).resolve#3: arg2 == rs && rs.depth > 0
+//@
+//@ func (*Resolver).resolveWithCachedNameservers
+//@   abstract
+//@   nosafety all
+//@   assert at store resolver.resolveState.depth#1: rs.depth > -9223372036854775808 + 10 ==> value < rs.depth
+//@   assert at store resolver.resolveState.depth#2: rs.depth > -9223372036854775808 ==> value < rs.depth
+//@   assert at call (*middleware/resolver.Resolver).resolve#1: arg2 == rs && rs.depth > 0
+//@
+//@ func (*Resolver).Resolve
+//@   abstract
+//@   nosafety all
+//@   assert at store resolver.resolveState.depth#1: value == depth
+//@   assert at store resolver.resolveState.work#1: value != nil ==> calls("(*middleware.RecursionWorkLedger).EnforcementError") == 1
+//@
+//@ func (*Resolver).subQuery
+//@   abstract
+//@   nosafety all
+//@   assert at call (*middleware/resolver.Resolver).resolve#1: calls("middleware.DebitRecursionWork") == 1
+//@
+//@ # every transport attempt (dial or exchange) is preceded by a debit of the request tree's ledger
+//@ func (*Resolver).exchange
+//@   abstract
+//@   opaque internal/dnsutil.ClearOPT
+//@   nosafety all
+//@   assert at call (*internal/dnsclient.Conn).ExchangeInterruptible#1: old(rs.work) != nil ==> calls("(*middleware.RecursionWorkLedger).Debit") + calls("(*middleware.RecursionWorkLedger).DebitBestEffort") == 1
+//@   assert at call (*middleware/resolver.Resolver).dialUDP#1: old(rs.work) != nil ==> calls("(*middleware.RecursionWorkLedger).Debit") + calls("(*middleware.RecursionWorkLedger).DebitBestEffort") == 1
